@@ -153,4 +153,17 @@ PROPS = {
         "level_text": "Theorems (Props/C09.lean): a unit within the clipping bound is not rescaled and the clipped sums of any database of such units are the plain sums; sum/greatest(1,count) is the mean of a non-empty group; E[x²] − E[x]² is the variance of the data (with a kernel-checked counterexample for the pre-repair formula E[x²] − E[x]). The real DP rewriting is executed on SQLite with noise neutralised and compared with the original query on generated databases.",
         "level_note": "Trusted: Lean kernel, Mathlib; SQLite and shims. Modelled, not verified: DISTINCT splitting and re-join, public-key left join (execution oracle only).",
     },
+    "C05": {
+        "lean_modules": ["QrlewModel.Props.C05"],
+        "streams": [
+            {"name": "c05", "n_quick": 2500, "n_thorough": 100000, "compare": False, "min_per_proc": 50},
+        ],
+        "rule": "c05: 12 query shapes (maps with filters, joins of two tracked relations along the foreign key, joins with the public table on either side, INNER/LEFT/RIGHT/FULL, per-unit and public-key reduces, UNION, ORDER BY/LIMIT, CTE with per-unit aggregate, self-join) x both strategies x databases of 2-12 units: "
+                "the real privacy-unit-preserving relation is executed on D and on D with all other units' protected rows deleted; the unit's rows are compared as multisets; NULL unit ids / weights reported; non-trivial = the unit has rows",
+        "trusted_base": COMMON_TRUST + ["SQLite 3.40 + harness shims as executor", "md5 replaced by an injective text function"],
+        "assumptions": ["the model covers operators on bags of (unit, row); foreign-key path joins and hashing are exercised by the execution oracle only"],
+        "technique": "Lean 4 proof (restriction to a unit commutes with every tracked operator: map, filter, union, join of tracked relations with unit equality, inner/left join with a published relation, per-unit reduce; kernel-checked counterexamples for LIMIT and outer joins preserving the untracked side) + execution oracle on the real rewriting",
+        "level_text": "Theorems (Props/C05.lean) for bags of any size and any row functions/predicates: the rows attributed to a unit by map, filter, union, tracked-tracked join (unit equality), inner and left join with a published relation, and per-unit reduce are exactly those obtained from the inputs restricted to that unit; counterexamples for a kept LIMIT and for outer joins preserving the published side (NULL unit). The real rewriting is executed on SQLite on D and on D restricted to one unit and the unit's rows compared.",
+        "level_note": "Trusted: Lean kernel; SQLite and shims. Modelled, not verified: the IR-to-IR transformers themselves (table path joins, renaming) are observed through execution only.",
+    },
 }
